@@ -119,10 +119,18 @@ func (tr *FnTr) loadFrom(m, alloc, obj, off *Term, T types.Type, base string, as
 		v.L[i] = tr.vc.Def(nm, leafOfCell(lf, c))
 	}
 	if assume {
+		if m.Op == "sym" && alloc != nil && memAllocOf != nil {
+			if _, ok := memAllocOf[m.Name]; !ok {
+				memAllocOf[m.Name] = alloc // (memory version, allocation counter) of a real state
+			}
+		}
 		// a reference that was already in an older memory version is older than everything
 		// allocated since
 		for i, lf := range lay.Leaves {
 			if lf.K == LObj && !lf.Str && v.L[i].IntConst() == nil {
+				if a := allocOfCell(cellTerms[i]); a != nil && a != alloc {
+					tr.vc.Assume(Implies(tr.st.Reach, Lt(v.L[i], a)))
+				}
 				if e, ok := boundFromCell(cellTerms[i]); ok && e < curEpoch {
 					if _, isAlloc := allocEpoch[v.L[i].Key()]; !isAlloc {
 						if old, has := objBound[v.L[i].Key()]; !has || e < old {
